@@ -45,6 +45,9 @@ Proof.
   intros H [E1 E2]. destruct e as [objs ents assoc| | | |a]; simpl.
   - destruct (flush_live g s objs ents assoc) as [A1 A2].
     destruct (flush_live g' s' objs ents assoc) as [B1 B2].
+    destruct (hier_pass_parts g (flush g s objs ents assoc)) as [P1 [_ [_ [_ [P5 _]]]]].
+    destruct (hier_pass_parts g' (flush g' s' objs ents assoc)) as [Q1 [_ [_ [_ [Q5 _]]]]].
+    unfold live_eq. rewrite P1, Q1, P5, Q5.
     split; [rewrite A1, B1, E1; apply fold_live_cfg; exact H | congruence].
   - split; simpl; assumption.
   - split; simpl; assumption.
